@@ -192,6 +192,39 @@ func (e *Engine) modelCall(s *State, fr *Frame, dst *ssa.Call, key string, f *ss
 	case "time.Now":
 		e.abstract("time.Now: arbitrary time value")
 		return s.fresh("now", f.Signature.Results().At(0).Type()), nil, true, false
+	case "golang.org/x/sync/errgroup.WithContext":
+		e.trustModel("errgroup: Go(f) runs f (modelled sequentially, in call order); Wait returns an arbitrary error or nil")
+		rt := f.Signature.Results()
+		g := &Ptr{Kind: pkObj, Ref: e.newRef(), Elem: rt.At(0).Type().(*types.Pointer).Elem()}
+		ctx := e.u.Fresh("gctx", SIface)
+		s.assume(Not(Eq(App("i-type", SInt, ctx), IntLit(0))))
+		return &Tuple{Vs: []Value{g, ctx}}, nil, true, false
+	case "golang.org/x/sync/errgroup.Group.Go":
+		e.abstract("errgroup.Group.Go: the function runs to completion at the call (goroutine interleavings with the caller are not modelled)")
+		switch fv := args[1].(type) {
+		case *Closure:
+			succ, done := e.callFunction(s, fr, nil, fv.Fn, nil, fv.Bindings, site, "errgroup.body#0", dstCommon(site))
+			return nil, succ, true, done
+		case *FuncRef:
+			succ, done := e.callFunction(s, fr, nil, fv.Fn, nil, nil, site, "errgroup.body#0", dstCommon(site))
+			return nil, succ, true, done
+		}
+		return nil, nil, false, false
+	case "golang.org/x/sync/errgroup.Group.Wait":
+		return s.fresh("groupwait", f.Signature.Results().At(0).Type()), nil, true, false
+	case "sync.Cond.Broadcast", "sync.Cond.Signal", "sync.WaitGroup.Add", "sync.WaitGroup.Done", "sync.WaitGroup.Wait",
+		"golang.org/x/sync/semaphore.Weighted.Release", "sync.Once.Do":
+		if key == "sync.Once.Do" {
+			return nil, nil, false, false
+		}
+		return nil, nil, true, false
+	case "golang.org/x/sync/semaphore.Weighted.Acquire":
+		return s.fresh("semacquire", f.Signature.Results().At(0).Type()), nil, true, false
+	case "golang.org/x/sync/semaphore.Weighted.TryAcquire":
+		return s.fresh("semtry", types.Typ[types.Bool]), nil, true, false
+	case "sync.NewCond":
+		rt := f.Signature.Results().At(0).Type().(*types.Pointer)
+		return &Ptr{Kind: pkObj, Ref: e.newRef(), Elem: rt.Elem()}, nil, true, false
 	case "errors.Is":
 		a, b := args[0].(Term), args[1].(Term)
 		r := e.u.Fresh("errorsIs", SBool)
